@@ -1,1 +1,70 @@
-From Ring Require Import ChanModel ChanGhost.
+(* Properties_C02.v -- C02: the writer is never given memory a reader still holds or has not consumed;
+   a reader's slice lies inside committed data and is not modified until that reader unmaps it. *)
+From Coq Require Import ZArith List Bool Lia.
+From Ring Require Import ChanModel ChanGhost ChanInv ChanLog ChanStream ChanTheorems.
+Import ListNotations.
+Local Open Scope Z_scope.
+
+(* The region handed out is contiguous [beg, beg+n), inside the buffer, and is exactly [head, mapped). *)
+Theorem C02_region_inside : forall c ops g n g' beg,
+  0 < c -> grun (ginit c) ops = Some g -> wf_op g (OWriteMap n) ->
+  gstep g (OWriteMap n) = (g', ResW (WRegion beg)) ->
+  pend g' = true /\ head (cs g') = beg /\ mapped (cs g') = beg + n /\ 0 <= beg /\ beg + n <= cap (cs g') /\
+  cap (cs g') = cap (cs g).
+Proof. intros c ops g n g' beg Hc E. exact (write_map_region g n g' beg (reachable_inv c ops g Hc E)). Qed.
+Print Assumptions C02_region_inside.
+
+(* In EVERY reachable state in which a write is mapped -- at the moment of mapping and for as long as it stays
+   mapped, whatever readers do or join meanwhile -- no offset of the region holds a byte some reader has not
+   consumed (mapped slices included: they are unread until unmapped).  Covers the exactly-full and the
+   exactly-empty-at-wrap instants: they are ordinary reachable states. *)
+Theorem C02_region_disjoint : forall c ops g r o,
+  0 < c -> grun (ginit c) ops = Some g -> pend g = true -> In r (rds (cs g)) ->
+  head (cs g) <= o < mapped (cs g) -> ~ unread g r o.
+Proof. intros c ops g r o Hc E. exact (region_disjoint g r o (reachable_inv c ops g Hc E)). Qed.
+Print Assumptions C02_region_disjoint.
+
+(* A mapped slice lies inside the buffer, every byte of it is committed data (Some log index, consecutive),
+   and it counts as unread. *)
+Theorem C02_slice_committed : forall c ops g r,
+  0 < c -> grun (ginit c) ops = Some g -> In r (rds (cs g)) -> rmapped r = true ->
+  0 <= hpos r /\ hpos r + avail r (high (cs g)) <= cap (cs g) /\
+  forall j, 0 <= j < avail r (high (cs g)) ->
+    unread g r (hpos r + j) /\ cell g (hpos r + j) = Some (idx g r + j).
+Proof. intros c ops g r Hc E. exact (slice_committed g r (reachable_inv c ops g Hc E)). Qed.
+Print Assumptions C02_slice_committed.
+
+(* No operation of anybody changes a ring cell that some reader has not consumed. *)
+Theorem C02_unread_stable : forall c ops g o r x,
+  0 < c -> grun (ginit c) ops = Some g -> wf_op g o -> In r (rds (cs g)) -> unread g r x ->
+  cell (fst (gstep g o)) x = cell g x.
+Proof. intros c ops g o r x Hc E. exact (unread_stable g o r x (reachable_inv c ops g Hc E)). Qed.
+Print Assumptions C02_unread_stable.
+
+(* Between a map and the matching unmap -- over any operations of the writer and of the other readers, of any
+   length -- the reader stays mapped on the same slice and no byte of it changes. *)
+Theorem C02_slice_stable : forall c ops1 ops2 g1 g2 i r,
+  0 < c -> grun (ginit c) ops1 = Some g1 -> grun g1 ops2 = Some g2 -> Forall (not_by i) ops2 ->
+  nth_error (rds (cs g1)) i = Some r -> rmapped r = true ->
+  exists r', nth_error (rds (cs g2)) i = Some r' /\ rmapped r' = true /\ hpos r' = hpos r /\
+    avail r' (high (cs g2)) = avail r (high (cs g1)) /\
+    forall j, 0 <= j < avail r (high (cs g1)) -> cell g2 (hpos r + j) = cell g1 (hpos r + j).
+Proof. intros c ops1 ops2 g1 g2 i r Hc E1 E2.
+  exact (slice_stable ops2 g1 g2 i r (reachable_inv c ops1 g1 Hc E1) E2). Qed.
+Print Assumptions C02_slice_stable.
+
+(* ---- non-vacuity: exactly-full ring with a mapped write next to a reader's unread data ---- *)
+Example ex_full : exists g, grun (ginit 6) [OReadMap 0%nat; OWriteMap 4; OCommit; OReadMap 0%nat; OReadUnmap 0%nat 2;
+                                         OWriteMap 2; OCommit; OWriteMap 2] = Some g /\
+  pend g = true /\ head (cs g) = 0 /\ mapped (cs g) = 2 /\ cyc (cs g) = 1 /\
+  exists r, nth_error (rds (cs g)) 0 = Some r /\ hpos r = 2 /\ hcyc r = 0.
+Proof. eexists. split; [vm_compute; reflexivity|]. vm_compute. repeat split. eexists. repeat split. Qed.
+
+(* the same state refuses (blocks) one more byte: the buffer is exactly full *)
+Example ex_full_blocks :
+  match grun (ginit 6) [OReadMap 0%nat; OWriteMap 4; OCommit; OReadMap 0%nat; OReadUnmap 0%nat 2;
+                        OWriteMap 2; OCommit; OWriteMap 2; OCommit] with
+  | Some g => snd (gstep g (OWriteMap 1)) = ResW WBlocked
+  | None => False
+  end.
+Proof. vm_compute. reflexivity. Qed.
